@@ -18,6 +18,8 @@ import (
 	"sync"
 	"time"
 
+	"go.uber.org/zap"
+
 	"verifharness/fb"
 	"verifharness/hv"
 	"verifharness/px"
@@ -601,6 +603,142 @@ func c16LeastBusy(ctx *Ctx) {
 	}
 }
 
+// ---- (4c) heartbeat schedules against Model/Heartbeat.v: ClientConn.Heartbeats driven through the public API; every
+// heartbeat is answered as scripted (SUPPORTED in time, SUPPORTED too late, an error frame, nothing).  The times are on a
+// coarse grid so that every decision of the loop has at least 75 ms of margin; a run whose heartbeats did not arrive on
+// that grid (a loaded machine) is not judged. ----
+func c16HeartbeatSchedule(ctx *Ctx) {
+	const interval, idle, ctimeout, step = 300, 1275, 450, 150 // ms
+	type beat struct{ kind, delay int }
+	var wg sync.WaitGroup
+	var mu sync.Mutex
+	r := ctx.Rng
+	for cs := 0; cs < ctx.Scale(10, 120); cs++ {
+		healthy := cs%5 == 4
+		var script []beat
+		for i := 0; i < 3+r.Intn(6); i++ {
+			switch k := r.Intn(8); {
+			case healthy || k < 4:
+				script = append(script, beat{0, step * r.Intn(2)})
+			case k == 4:
+				script = append(script, beat{0, ctimeout + step}) // SUPPORTED, but after the request has timed out
+			case k < 7:
+				script = append(script, beat{1, step * r.Intn(2)})
+			default:
+				script = append(script, beat{2, 0})
+			}
+		}
+		full := append([]beat{}, script...)
+		if !healthy {
+			for i := 0; i < idle/interval+3; i++ {
+				full = append(full, beat{2, 0})
+			}
+		}
+		wg.Add(1)
+		go func(cs int, script, full []beat, healthy bool) {
+			defer wg.Done()
+			prefix, port := px.Alloc()
+			be := fb.New(prefix, port)
+			if err := be.StartHost(1); err != nil {
+				panic(err)
+			}
+			be.SetTopology(1)
+			defer be.Shutdown()
+			c, cancel := context.WithTimeout(context.Background(), 60*time.Second)
+			defer cancel()
+			cl, err := proxycore.ConnectClient(c, proxycore.NewEndpoint(fmt.Sprintf("%s:%d", be.IP(1), be.Port)), proxycore.ClientConnConfig{})
+			if err != nil {
+				panic(err)
+			}
+			if _, err := cl.Handshake(c, primitive.ProtocolVersion4, nil); err != nil {
+				panic(err)
+			}
+			var outs []fb.Outcome
+			for _, b := range full {
+				switch b.kind {
+				case 0:
+					outs = append(outs, fb.Outcome{Kind: fb.ErrMsg, Msg: &message.Supported{Options: map[string][]string{"CQL_VERSION": {"3.4.5"}}}, Delay: time.Duration(b.delay) * time.Millisecond})
+				case 1:
+					outs = append(outs, fb.Outcome{Kind: fb.ErrMsg, Msg: &message.ServerError{ErrorMessage: "scripted"}, Delay: time.Duration(b.delay) * time.Millisecond})
+				default:
+					outs = append(outs, fb.Outcome{Kind: fb.Silence})
+				}
+			}
+			be.QueueOptionsReplies(outs...)
+			var amu sync.Mutex
+			var arrivals []time.Time
+			be.OnFrame = func(x *fb.Rec) {
+				if x.Kind == "options" {
+					amu.Lock()
+					arrivals = append(arrivals, time.Now())
+					amu.Unlock()
+				}
+			}
+			t0 := time.Now()
+			go cl.Heartbeats(ctimeout*time.Millisecond, primitive.ProtocolVersion4, interval*time.Millisecond, idle*time.Millisecond, zap.NewNop())
+			closed, at := false, int64(0)
+			limit := time.Duration(len(full)*(interval+ctimeout)+idle+3000) * time.Millisecond
+			if healthy {
+				// watch until the last scripted heartbeat has been answered
+				limit = 0
+				for _, b := range script {
+					limit += time.Duration(interval+b.delay) * time.Millisecond
+				}
+				limit += 60 * time.Millisecond
+			}
+			select {
+			case <-cl.IsClosed():
+				closed, at = true, int64(time.Since(t0)/time.Millisecond)
+			case <-time.After(limit):
+			}
+			_ = cl.Close()
+			// were the heartbeats on the grid?
+			amu.Lock()
+			disturbed := false
+			expect := t0.Add(interval * time.Millisecond)
+			for i, a := range arrivals {
+				if i >= len(full) {
+					break
+				}
+				if d := a.Sub(expect); d > 35*time.Millisecond || d < -35*time.Millisecond {
+					disturbed = true
+				}
+				took := ctimeout
+				if full[i].kind != 2 && full[i].delay < ctimeout {
+					took = full[i].delay
+				}
+				expect = a.Add(time.Duration(took+interval) * time.Millisecond)
+			}
+			amu.Unlock()
+			mu.Lock()
+			defer mu.Unlock()
+			if disturbed {
+				ctx.Count("heartbeat-schedule:timing-disturbed(not judged)")
+				return
+			}
+			var bv []hv.V
+			for _, b := range script {
+				bv = append(bv, hv.L(hv.I(int64(b.kind)), hv.I(int64(b.delay))))
+			}
+			if !healthy {
+				for i := len(script); i < len(full); i++ {
+					bv = append(bv, hv.L(hv.I(2), hv.I(0)))
+				}
+			}
+			note := "heartbeat-schedule:ends-silent"
+			if healthy {
+				note = "heartbeat-schedule:healthy"
+			}
+			ctx.Count(note)
+			ctx.Emit(hv.L(hv.I(8), hv.I(interval), hv.I(idle), hv.I(ctimeout), hv.L(bv...), hv.I(45), hv.Bool(closed), hv.I(at)), hv.L(hv.I(0)), note)
+		}(cs, script, full, healthy)
+		if cs%12 == 11 {
+			wg.Wait()
+		}
+	}
+	wg.Wait()
+}
+
 // ---- (2) failover with several hosts down at once, (3) outage samples ----
 func c16Failover(ctx *Ctx) {
 	r := ctx.Rng
@@ -880,6 +1018,7 @@ func genC16(ctx *Ctx) {
 	par(6, c16HeartbeatReplaced)
 	par(7, c16SessionBornDuringRemoval)
 	par(8, c16PoolTable)
+	par(9, c16HeartbeatSchedule)
 	c16LeastBusy(ctx)
 	par(3, c16Readiness)
 	par(4, c16Heartbeat)
